@@ -5,6 +5,7 @@
 -/
 import GV.Model.Alias
 import GV.Proofs.AList
+import GV.Proofs.Lru
 namespace GV.Props.C17
 open GV
 
@@ -101,5 +102,54 @@ example :
     (x1, x2, x3) = ({ skipTopic := false, alias := some 2 }, { skipTopic := true, alias := some 2 },
                     { skipTopic := false, alias := some 2 }) := by
   decide
+
+/-! ### LRU outbound resolver: a whole connection -/
+
+/-- a connection's worth of publishes through the resolver, with the server's table replayed alongside: the list
+    of topics the server reconstructs -/
+def lruConnection : OutResolver → List (Nat × Bytes) → List (Option Nat × Bytes) → List (Option Bytes)
+  | _, _, [] => []
+  | r, S, (alias, topic) :: rest =>
+    let out := r.resolve alias topic
+    _root_.GV.serverTopic S out.2 topic :: lruConnection out.1 (_root_.GV.serverApply S out.2 topic) rest
+
+/-- **One resolution**: the server reconstructs exactly the published topic and the cache stays consistent with
+    the server's table (distinct aliases within 1..maximum, every cached pair bound on the server). -/
+theorem lru_one_resolution (r : OutResolver) (S : List (Nat × Bytes)) (cfg : Nat) (hk : r.kind = .lru cfg)
+    (hcap : r.maxAlias ≤ lruCapacity cfg) (inv : LruInv r S) (alias : Option Nat) (topic : Bytes) :
+    _root_.GV.serverTopic S (r.resolve alias topic).2 topic = some topic ∧
+      LruInv (r.resolve alias topic).1 (_root_.GV.serverApply S (r.resolve alias topic).2 topic) :=
+  let h := lru_step r S cfg hk hcap inv alias topic
+  ⟨h.1, h.2.1⟩
+
+/-- **Every connection, every sequence of publishes (any topics, any number, evictions included)**: after the
+    reset done at CONNACK (any server Topic Alias Maximum, any configured cache size) the server reconstructs
+    exactly the topic of every PUBLISH. -/
+theorem lru_connection_faithful (r0 : OutResolver) (cfg max : Nat) (hk : r0.kind = .lru cfg) (pubs : List (Option Nat × Bytes)) :
+    lruConnection (r0.reset max) [] pubs = pubs.map (fun p => some p.2) := by
+  have key : ∀ (pubs : List (Option Nat × Bytes)) (r : OutResolver) (S : List (Nat × Bytes)), r.kind = .lru cfg →
+      r.maxAlias ≤ lruCapacity cfg → LruInv r S → lruConnection r S pubs = pubs.map (fun p => some p.2) := by
+    intro pubs
+    induction pubs with
+    | nil => intro r S _ _ _; rfl
+    | cons p rest ih =>
+      intro r S hk hcap inv
+      obtain ⟨alias, topic⟩ := p
+      have h := lru_step r S cfg hk hcap inv alias topic
+      simp only [] at h
+      simp only [lruConnection, List.map_cons]
+      rw [h.1, ih _ _ (by rw [h.2.2.1]; exact hk) (by rw [h.2.2.2.1]; exact hcap) h.2.1]
+  have hr := lru_reset_inv r0 cfg max hk
+  exact key pubs _ _ hr.2.2 hr.2.1 hr.1
+
+/-- aliases used never exceed the server's Topic Alias Maximum and are never 0 -/
+theorem lru_alias_in_range (r : OutResolver) (S : List (Nat × Bytes)) (cfg : Nat) (hk : r.kind = .lru cfg)
+    (hcap : r.maxAlias ≤ lruCapacity cfg) (inv : LruInv r S) (alias : Option Nat) (topic : Bytes) (a : Nat)
+    (h : (r.resolve alias topic).2.alias = some a) : 1 ≤ a ∧ a ≤ r.maxAlias :=
+  (lru_step r S cfg hk hcap inv alias topic).2.2.2.2 a h
+
+/-- non-vacuity: capacity 2, three topics: a, b, a (hit), c (evicts b), b (rebound) — all reconstructed -/
+example : lruConnection ((OutResolver.new (.lru 2)).reset 10) [] [(none, [97]), (none, [98]), (none, [97]), (none, [99]), (none, [98])]
+    = [some [97], some [98], some [97], some [99], some [98]] := by decide
 
 end GV.Props.C17
